@@ -751,13 +751,13 @@ func printTabularOutput(statementMap []map[string]string, originalStatement stri
 			// Immediately write optional Original Statement and IG Script headers (if input is not empty)
 			if v == stmtIdColHeader {
 				// Include column for Original Statement output if some form of output is selected
-				if printOriginalStatement != ORIGINAL_STATEMENT_OUTPUT_NONE {
+				if printOriginalStatement == ORIGINAL_STATEMENT_OUTPUT_FIRST_ENTRY || printOriginalStatement == ORIGINAL_STATEMENT_OUTPUT_ALL_ENTRIES {
 					// Column for Original Statement content
 					builder.WriteString(stmtOriginalStatementHeader)
 					builder.WriteString(separator)
 				}
 				// Include column for IG Script output if some form of output is selected
-				if printIgScript != IG_SCRIPT_OUTPUT_NONE {
+				if printIgScript == IG_SCRIPT_OUTPUT_FIRST_ENTRY || printIgScript == IG_SCRIPT_OUTPUT_ALL_ENTRIES {
 					// Column for IG Script content
 					builder.WriteString(stmtIgScriptHeader)
 					builder.WriteString(separator)
